@@ -204,6 +204,7 @@ type Frame struct {
 }
 
 type deferRec struct {
+	guard Term // reach of the registration point
 	ins  *ssa.Defer
 	fn   Val
 	args []Val
